@@ -620,6 +620,16 @@ func (obj *SparseInt16Vector) UnmarshalJSON(data []byte) error {
   if len(r.Index) != len(r.Value) {
     return fmt.Errorf("invalid sparse vector")
   }
+  if r.Length < 0 {
+    return fmt.Errorf("invalid sparse vector")
+  }
+  indices := make(map[int]bool)
+  for _, k := range r.Index {
+    if k < 0 || k >= r.Length || indices[k] {
+      return fmt.Errorf("invalid sparse vector")
+    }
+    indices[k] = true
+  }
   *obj = *NewSparseInt16Vector(r.Index, r.Value, r.Length)
   return nil
 }
